@@ -424,6 +424,17 @@ pub fn msgs_val(msgs: Vec<(Vec<u8>, Vec<RawFd>)>, fdt: &FdTable) -> Val {
     Val::L(out)
 }
 
+/// family "bgone": as "be", but the peer stops reading before the server runs, so that every reply fails to be sent
+pub fn run_gone(args: &[Val]) -> Val {
+    PEER_GONE.with(|g| g.set(true));
+    let r = run(args);
+    PEER_GONE.with(|g| g.set(false));
+    r
+}
+thread_local! {
+    static PEER_GONE: std::cell::Cell<bool> = const { std::cell::Cell::new(false) };
+}
+
 pub fn run(args: &[Val]) -> Val {
     let (cfg, outs, msgs) = match args {
         [Val::L(c), Val::L(o), Val::L(m)] => (c, o, m),
@@ -457,6 +468,9 @@ pub fn run(args: &[Val]) -> Val {
         seg_sizes.push(bytes.len());
     }
     unsafe { libc::shutdown(peer_fd, libc::SHUT_WR) };
+    if PEER_GONE.with(|g| g.get()) {
+        unsafe { libc::shutdown(peer_fd, libc::SHUT_RD) };
+    }
     let rec = Arc::new(Mutex::new(new_rec(features, pfeatures, fdt.clone())));
     // our own copies of the sent descriptors go away now: what stays open is the receiver's
     {
